@@ -599,6 +599,9 @@ def r8(ctx):
                 "there was no outer value leaves the thread-local pointing at the last host / simulation: later drops outside any `enter` "
                 "then act on the wrong host's state, and a second simulation in the same process starts from a different state")
     n = 0
+    global ACCESSORS
+    if not ACCESSORS:
+        ACCESSORS = TABLE_ACCESSORS   # called as a shared rule from another property's check
     guards = sorted({a for accs in ACCESSORS.values() for a in accs if a.endswith("as std::ops::Drop>::drop")})
     for gid in guards:
         b = ctx.w.bodies.get(gid)
@@ -723,10 +726,16 @@ def run(ctx):
     from . import C05
     C05.r11(ctx, R="C01-R9")   # destructors run by crash / bounce must not see the wall clock
     from . import C04
+    r5_sib(ctx)
     C04.r5(ctx)                # the software factory (host code) runs inside the host's runtime, on first start and on bounce
 
 
 TABLE_ACCESSORS = GLOBALS
+
+
+def r5_sib(ctx):
+    from . import C05
+    C05.r5(ctx)   # Sim::client and Sim::host build their runtimes alike: a client runtime without the seeded rng draws tokio's own entropy
 
 
 def extra(tier, repo, work, insts):
